@@ -124,6 +124,10 @@ type Dumper struct {
 	ch      chan *dumpTask
 	running int32      // 1 while Start is draining ch
 	mu      sync.Mutex // serialises synchronous writes: one exchange is dumped from several goroutines
+	qmu     sync.Mutex // held while a write is queued and while Stop ends the draining
+	stopped bool       // Stop was called: nothing is queued any more (guarded by qmu)
+	done    chan struct{}
+	once    sync.Once
 }
 
 type dumpTask struct {
@@ -136,6 +140,7 @@ func NewDumper(opt Options) *Dumper {
 	d := &Dumper{
 		Options: opt,
 		ch:      make(chan *dumpTask, 20),
+		done:    make(chan struct{}),
 	}
 	return d
 }
@@ -151,6 +156,7 @@ func (d *Dumper) Clone() *Dumper {
 	return &Dumper{
 		Options: d.Options.Clone(),
 		ch:      make(chan *dumpTask, 20),
+		done:    make(chan struct{}),
 	}
 }
 
@@ -161,11 +167,18 @@ func (d *Dumper) DumpTo(p []byte, output io.Writer) {
 	// Only queue when Start is draining the channel (a request-level dumper is
 	// never started): otherwise nothing would be written and the sender would
 	// block forever once the channel is full.
-	if d.Async() && atomic.LoadInt32(&d.running) == 1 {
-		b := make([]byte, len(p))
-		copy(b, p)
-		d.ch <- &dumpTask{Data: b, Output: output}
-		return
+	// ... and not any more once Stop has been called: an exchange that is still in
+	// flight then would queue behind the stop mark, where nothing is drained.
+	if d.Async() {
+		d.qmu.Lock()
+		if atomic.LoadInt32(&d.running) == 1 && !d.stopped {
+			b := make([]byte, len(p))
+			copy(b, p)
+			d.ch <- &dumpTask{Data: b, Output: output}
+			d.qmu.Unlock()
+			return
+		}
+		d.qmu.Unlock()
 	}
 	d.mu.Lock()
 	output.Write(p)
@@ -192,13 +205,28 @@ func (d *Dumper) DumpResponseBody(p []byte) {
 	d.DumpTo(p, d.ResponseBodyOutput())
 }
 
+// Stop ends the draining. Everything queued before has been written when it
+// returns; what is dumped afterwards (by exchanges still in flight) is written
+// synchronously.
 func (d *Dumper) Stop() {
+	d.qmu.Lock()
+	defer d.qmu.Unlock()
+	d.stopped = true
+	draining := atomic.LoadInt32(&d.running) == 1
 	d.ch <- nil
+	if draining && d.done != nil {
+		<-d.done
+	}
 }
 
 func (d *Dumper) Start() {
 	atomic.StoreInt32(&d.running, 1)
-	defer atomic.StoreInt32(&d.running, 0)
+	defer func() {
+		atomic.StoreInt32(&d.running, 0)
+		if d.done != nil {
+			d.once.Do(func() { close(d.done) })
+		}
+	}()
 	for t := range d.ch {
 		if t == nil {
 			return
